@@ -36,6 +36,9 @@ type StructV struct {
 	T      types.Type
 	Prefix string
 	F      map[string]Value
+	// Key: when non-nil the struct is an element of a slice of structs; its leaf fields are the
+	// uninterpreted functions F.<Prefix>.<field>(Key...) so that they are functions of the index
+	Key []*Term
 }
 
 // ErrV is a value of type error: only nil-ness is modelled (the text of errors is dropped).
